@@ -110,6 +110,12 @@ WithSeps2R(sig, lay, i) ==
   ELSE <<sig[i]>> \o SepFor2(lay, i, sig[i], sig[i + 1]) \o WithSeps2R(sig, lay, i + 1)
 Render2(cs, lay) == WithSeps2R(File2Toks(cs, lay), lay, 1)
 
+(* What the parser records (modelled as the code has it): a comment placed between => and the first field or *)
+(* variant of a function result is skipped, not attached to that item.                                      *)
+DropFirstCb(d) == IF d.un THEN (IF d.vs # <<>> THEN [d EXCEPT !.vs[1].cb = <<>>] ELSE d)
+                  ELSE IF d.fs # <<>> THEN [d EXCEPT !.fs[1].cb = <<>>] ELSE d
+ParsedAs(c) == IF c.fn /\ ~c.ret[1].al THEN [c EXCEPT !.ret = <<DropFirstCb(c.ret[1])>>] ELSE c
+
 ---------------------------------------------------------------------------
 (* THE FORMATTER (tlast_tl2_view.go).  Options = [ic, one, uni]: ignore     *)
 (* comments, longest one-line declaration, longest one-line union variant. *)
